@@ -27,7 +27,7 @@ cargo nextest run -p cedar-policy-core -p cedar-policy -p cedar-policy-cli -p ce
 grep -E "Summary|^\s+FAIL" "$SEED/suite.log" | sort -u | head -20 >> "$LOG"
 FAILS=$(grep -E "^\s+FAIL" "$SEED/suite.log" | sed -E 's/.*\) +//' | sort -u | grep -v "link_file_cant_read" | wc -l)
 git checkout -q -- . && git clean -fdq -e target
-cp "$SEED/demo.rs" "$LOC"
+mkdir -p "$(dirname $LOC)"; cp "$SEED/demo.rs" "$LOC"
 echo "== demo WITHOUT patch" >> "$LOG"
 ( eval "$CMD" ) >> "$LOG" 2>&1; WITHOUT=$?
 rm -f "$LOC"; git checkout -q -- . ; git clean -fdq -e target
